@@ -638,6 +638,14 @@ static void iauth_xquery_config_service(const char *name, const char *type)
     srv->configured = 1;
 }
 
+static void iauth_xquery_services_changed(struct conf_node_base *node);
+
+/** Handle a change to the value (protocol) of one service's entry. */
+static void iauth_xquery_service_changed(struct conf_node_base *node)
+{
+    iauth_xquery_services_changed(&node->parent->base);
+}
+
 static void iauth_xquery_services_changed(struct conf_node_base *node)
 {
     struct iauth_xquery_service *srv;
@@ -658,7 +666,12 @@ static void iauth_xquery_services_changed(struct conf_node_base *node)
 
             if (base->type == CONF_STRING) {
                 struct conf_node_string *str = set_node_data(jj);
-                iauth_xquery_config_service(str->base.name, str->value);
+                /* Hear about in-place changes of the protocol, too. */
+                if (!base->hook)
+                    base->hook = iauth_xquery_service_changed;
+                /* (An entry that is being removed has a NULL value.) */
+                if (str->value)
+                    iauth_xquery_config_service(str->base.name, str->value);
             } /* else unknown type */
         }
 
